@@ -240,7 +240,7 @@ Qed.
 
 Lemma parse_rational_no_slash p t r : ~ In 47%N t -> parse_rational p t r = Ok None.
 Proof.
-  intros Hn. unfold parse_rational, ratio32_from_str_radix, bigratio_from_str_radix.
+  intros Hn. unfold parse_rational, signed_denominator, ratio32_from_str_radix, bigratio_from_str_radix.
   assert (E : split_slash t = None).
   { induction t as [|c t IH]. reflexivity. cbn [split_slash].
     destruct (c =? 47)%N eqn:E. apply N.eqb_eq in E. subst. exfalso. apply Hn. now left.
@@ -271,8 +271,15 @@ Proof.
       assert (Hin : In 47%N (show_int_radix r a ++ [47%N] ++ show_int_radix r b))
         by (apply in_or_app; right; now left).
       rewrite int_from_str_slash, bigint_from_str_slash by assumption.
-      unfold parse_rational, ratio32_from_str_radix. cbn [app].
+      unfold parse_rational, signed_denominator, ratio32_from_str_radix. cbn [app].
       rewrite split_slash_app by (apply show_int_radix_no_slash; assumption).
+      assert (Hsd : match show_int_radix r b with c :: _ => ((c =? 43) || (c =? 45))%N | [] => false end = false).
+      { rewrite show_int_radix_pos by lia.
+        pose proof (show_nat_radix_chars r b ltac:(lia) ltac:(lia)) as Hc.
+        destruct (show_nat_radix r b) as [|c l]; [reflexivity|].
+        apply Forall_inv in Hc.
+        rewrite (digit_char_neqb c 43%N Hc ltac:(lia)), (digit_char_neqb c 45%N Hc ltac:(lia)). reflexivity. }
+      rewrite Hsd.
       rewrite !int_from_str_show by assumption.
       assert (Hb0 : b =? 0 = false) by (apply Z.eqb_neq; lia). rewrite Hb0.
       unfold ratio32_new. rewrite Hb0.
